@@ -2,6 +2,7 @@ import RgVerif.Model.Sx
 import RgVerif.Model.Strip
 import RgVerif.Model.NonMatching
 import RgVerif.Model.Literal
+import RgVerif.Model.RegexConfig
 namespace RgVerif.Driver.C11
 open RgVerif RgVerif.Rx
 
@@ -177,6 +178,98 @@ def handleLit (cmd : String) (args : List Sx) : Option String :=
     | _, _ => some "bad-op"
   | _, _ => none
 
+/-! ### configuration level (`config.rs`, `ast.rs`, `matcher.rs::build_many`) -/
+
+/-- `(cfg ci cs ml dot u crlf w x F LT BAN)` with LT = `none` | `crlf` | `b<byte>`, BAN = `-` | byte -/
+def parseCfg : Sx → Option Config
+  | .list [.atom "cfg", ci, cs, ml, dot, u, crlf, w, x, f, lt, ban] => do
+    let lt ← match lt with
+      | .atom "none" => some none
+      | l => (parseLT l).map some
+    let ban ← match ban with
+      | .atom "-" => some none
+      | b => b.nat?.map some
+    pure { caseInsensitive := (← ci.bool?), caseSmart := (← cs.bool?), multiLine := (← ml.bool?),
+           dotMatchesNewLine := (← dot.bool?), unicode := (← u.bool?), crlf := (← crlf.bool?),
+           word := (← w.bool?), wholeLine := (← x.bool?), fixedStrings := (← f.bool?),
+           lineTerm := lt, ban := ban }
+  | _ => none
+
+def parsePats : Sx → Option (List Bytes)
+  | .list (.atom "pats" :: ps) => ps.mapM Sx.bytes?
+  | _ => none
+
+mutual
+partial def parseAst : Sx → Option Ast
+  | .list [.atom "o"] => some .other
+  | .list [.atom "l", c] => c.nat?.map .literal
+  | .list [.atom "b", set] => (parseSet set).map .bracketed
+  | .list [.atom "r", a] => (parseAst a).map .repetition
+  | .list [.atom "g", a] => (parseAst a).map .group
+  | .list (.atom "a" :: xs) => (xs.mapM parseAst).map fun l => .alternation (l.foldr .cons .nil)
+  | .list (.atom "c" :: xs) => (xs.mapM parseAst).map fun l => .concat (l.foldr .cons .nil)
+  | _ => none
+partial def parseSet : Sx → Option ClassSet
+  | .list [.atom "o"] => some .itemOther
+  | .list [.atom "l", c] => c.nat?.map .itemLiteral
+  | .list [.atom "rg", a, b] => do pure (.itemRange (← a.nat?) (← b.nat?))
+  | .list [.atom "b", set] => (parseSet set).map .itemBracketed
+  | .list (.atom "u" :: xs) => (xs.mapM parseSet).map fun l => .itemUnion (l.foldr .cons .nil)
+  | .list [.atom "op", a, b] => do pure (.binaryOp (← parseSet a) (← parseSet b))
+  | _ => none
+end
+
+def showLT : Option LineTerm → String
+  | none => "none"
+  | some .crlf => "crlf"
+  | some (.byte b) => s!"b{b}"
+
+def showBuildErr : BuildErr → String
+  | .banned b => s!"err banned {b}"
+  | .strip (.notAllowed b) => s!"err notallowed {b}"
+  | .strip (.invalidLineTerm b) => s!"err invalid {b}"
+
+def handleCfg (cmd : String) (args : List Sx) : Option String :=
+  match cmd, args with
+  | "c11.route", [cfg, pats] =>
+    match parseCfg cfg, parsePats pats with
+    | some cfg, some pats => some s!"fixed={b01 (cfg.isFixedStrings pats)} pattern={toHex (cfg.patternText pats)}"
+    | _, _ => some "bad-op"
+  | "c11.case", [cfg, ast, .list (.atom "upper" :: us)] =>
+    match parseCfg cfg, parseAst ast, us.mapM Sx.nat? with
+    | some cfg, some ast, some us =>
+      let an := analyseAst (fun c => us.contains c) ast {}
+      some s!"ci={b01 (cfg.isCaseInsensitive an)} lit={b01 an.anyLiteral} up={b01 an.anyUppercase}"
+    | _, _, _ => some "bad-op"
+  | "c11.build", [cfg, pats, tr, acc, opt, nrm] =>
+    -- `opt` is what the real optimiser returned; `nrm` is the tree the real smart constructors
+    -- produce for the model's raw tree (`raw=` in the reply; the harness checks that equation)
+    match parseCfg cfg, parsePats pats, parseHir tr, acc.bool?, parseSeq opt with
+    | some cfg, some pats, some tr, some acc, some opt =>
+      let norm : Hir → Hir := match nrm with
+        | .atom "-" => id
+        | x => match parseHir x with
+          | some h => fun _ => h
+          | none => id
+      match cfg.build pats tr acc (fun _ => opt) norm, cfg.build pats tr acc (fun _ => opt) id with
+      | .ok m, .ok raw =>
+        some s!"ok lt={showLT m.lineTerm} nm={toHex m.nonMatching} lits={showSeq m.fastLits} raw={showHir raw.hir}"
+      | .error e, _ => some (showBuildErr e)
+      | _, .error e => some (showBuildErr e)
+    | _, _, _, _, _ => some "bad-op"
+  | "c11.confhir", [cfg, pats, tr] =>
+    match parseCfg cfg, parsePats pats, parseHir tr with
+    | some cfg, some pats, some tr =>
+      match cfg.configuredHir pats tr with
+      | .ok h => some ("ok " ++ showHir h)
+      | .error e => some (showBuildErr e)
+    | _, _, _ => some "bad-op"
+  | "c11.wrap", [cfg, h] =>
+    match parseCfg cfg, parseHir h with
+    | some cfg, some h => let w := cfg.wrap h; some s!"lt={showLT (cfg.lineTerminatorOf w)} hir={showHir w}"
+    | _, _ => some "bad-op"
+  | _, _ => none
+
 /-- Request handler of property C11: `cmd` is the first token of the line, `args` the rest. -/
 def handle (cmd : String) (args : List Sx) : String :=
   match handleBase cmd args with
@@ -184,6 +277,9 @@ def handle (cmd : String) (args : List Sx) : String :=
   | none =>
     match handleLit cmd args with
     | some r => r
-    | none => "bad-op"
+    | none =>
+      match handleCfg cmd args with
+      | some r => r
+      | none => "bad-op"
 
 end RgVerif.Driver.C11
